@@ -6,6 +6,8 @@
 import Rox.Lemmas.Size
 import Rox.Lemmas.DocSpans
 import Rox.Props.C01
+import Rox.Lemmas.MirrorStorage
+import Rox.Lemmas.GrammarTables
 
 namespace Rox.Props.C18
 open Rox Rox.Lemmas
@@ -110,5 +112,33 @@ theorem parsed_borrowed_are_slices (txt : Bytes) (hv : ValidUtf8 txt) (opt : Opt
     (∀ (k : Nat) (v : Namespace), d.ns.values[k]? = some v → 0 < k → (∀ nm, v.name = some nm → SpanOk txt nm) ∧ StrOk txt v.uri) := by
   have hs := parse_docSpans Generated.tables C01.generated_tables_ok txt hv opt d h
   exact ⟨fun i n hn => (hs.nodes i n hn).1, fun k a ha => ⟨(hs.attrs k a ha).1, (hs.attrs k a ha).2.1⟩, hs.ns⟩
+
+/-- **Which strings are borrowed, for every accepted document** (every valid UTF-8 input accepted under
+the default `allow_dtd = false`; a storage-aware refinement of `C03.accepted_tree_mirrors`, for the
+same abstract document `x` the input is the concrete syntax of): reading every string of the arena
+back as (bytes, borrowed?) gives exactly `docTreeS x`, which computes the flag from the document's raw
+syntax alone —
+
+* an attribute value is **borrowed exactly when** its raw text between the quotes contains none of
+  `&`, TAB, LF, CR (`Rox.Spec.Mirror.attrBorrowed`), and owned (normalised) otherwise;
+* a text node is **borrowed exactly when** its run is a single piece of character data without `&`
+  and CR (`textBorrowed`), or a single CDATA section without CR (`cdataBorrowed`); a run of two or
+  more adjacent pieces (text next to CDATA …) is merged into an owned string;
+* element and attribute local names, comment bodies, PI targets and PI values are always borrowed.
+
+With `parsed_borrowed_are_slices` (every borrowed string is the slice of the input at its offset):
+undecoded content is never copied. `Lemmas/MirrorStorage.lean` (2 300 lines). -/
+theorem accepted_storage_mirrors (txt : Bytes) (hv : ValidUtf8 txt) (opt : Opt)
+    (hdtd : opt.allowDtd = false) (d : Doc) (h : parse Generated.tables txt opt = .ok d) :
+    ∃ x : Rox.Spec.Grammar.GDoc, Rox.Spec.Grammar.GDocWf Generated.tables x ∧
+      Rox.Spec.Mirror.DocNormal Generated.tables x ∧ Rox.Spec.Grammar.RDoc Generated.tables x txt ∧
+      d.nodes.toList.map (Rox.Spec.Mirror.viewM d) =
+        (none, Rox.Spec.Canon4.YKind.root) ::
+          Rox.Spec.Canon4.expectAllY 0 1 (Rox.Spec.Mirror.docTree x) ∧
+      d.nodes.toList.map (Rox.Spec.Mirror.viewS d) =
+        (none, Rox.Spec.Mirror.SKind.root) ::
+          Rox.Spec.Mirror.expectAllS 0 1 (Rox.Spec.Mirror.docTreeS x) :=
+  Rox.Lemmas.accepted_storage_mirrors Generated.tables C01.generated_tables_ok
+    Rox.Lemmas.generated_tables_grammar txt hv opt hdtd d h
 
 end Rox.Props.C18
